@@ -111,7 +111,9 @@ def p_pretty_call_alt(it, a, k, n):
 
 def p_pretty_call(it, a, k, n):
     ctx, fn = a[0], a[1]
-    return DocV(D.Call('ident(%s)' % prov(fn), [prov(x) for x in a[2:]], [(kk, prov(v)) for kk, v in k.items()],
+    kws = [(kk, prov(v)) for kk, v in k.items() if kk != '**pairs']
+    kws += [(prov(kk), prov(v)) for kk, v in k.get('**pairs', [])]
+    return DocV(D.Call('ident(%s)' % prov(fn), [prov(x) for x in a[2:]], kws,
                        via='pretty_call', ctx=ctx.describe() if isinstance(ctx, CtxV) else None))
 
 
